@@ -1723,19 +1723,20 @@ func (f *FuncCFG) valuesUnder(e ast.Expr, pt Point, assign map[string]bool, dept
 		type state struct {
 			b   *cfg.Block
 			def ast.Expr
+			ret *retInfo
 		}
 		seen := map[state]bool{}
 		found := false
-		var walk func(b *cfg.Block, i int, def ast.Expr)
-		walk = func(b *cfg.Block, i int, def ast.Expr) {
+		var walk func(b *cfg.Block, i int, def ast.Expr, ret *retInfo)
+		walk = func(b *cfg.Block, i int, def ast.Expr, ret *retInfo) {
 			if !b.Live {
 				return
 			}
 			if i == 0 {
-				if seen[state{b, def}] {
+				if seen[state{b, def, ret}] {
 					return
 				}
-				seen[state{b, def}] = true
+				seen[state{b, def, ret}] = true
 			}
 			for ; i < len(b.Nodes); i++ {
 				if f.At(Point{b, i}, pt) {
@@ -1747,11 +1748,31 @@ func (f *FuncCFG) valuesUnder(e ast.Expr, pt Point, assign map[string]bool, dept
 					}
 					return
 				}
+				// the return of a spliced helper taken on this path
+				if reg := f.regionOf[b]; reg != nil {
+					for ri := range reg.rets {
+						if reg.rets[ri].pt.B == b && reg.rets[ri].pt.I == i {
+							ret = &reg.rets[ri]
+						}
+					}
+				}
 				switch st := b.Nodes[i].(type) {
 				case *ast.AssignStmt:
 					for li, l := range st.Lhs {
-						if objOfIdentRaw(f.Info, l) == obj && len(st.Lhs) == len(st.Rhs) {
+						if objOfIdentRaw(f.Info, l) != obj {
+							continue
+						}
+						if len(st.Lhs) == len(st.Rhs) {
 							def = st.Rhs[li]
+						} else if len(st.Rhs) == 1 && ret != nil && li < len(ret.results) {
+							// tuple assignment from a spliced helper: the li-th result of the return taken
+							if reg := f.regionByCall(stmtLevelCall(st)); reg != nil {
+								for ri := range reg.rets {
+									if &reg.rets[ri] == ret {
+										def = ret.results[li]
+									}
+								}
+							}
 						}
 					}
 				case *ast.ValueSpec:
@@ -1768,18 +1789,18 @@ func (f *FuncCFG) valuesUnder(e ast.Expr, pt Point, assign map[string]bool, dept
 				}
 				if v, known := evalCond(c, assign); known {
 					if v {
-						walk(b.Succs[0], 0, def)
+						walk(b.Succs[0], 0, def, ret)
 					} else {
-						walk(b.Succs[1], 0, def)
+						walk(b.Succs[1], 0, def, ret)
 					}
 					return
 				}
 			}
 			for _, sc := range b.Succs {
-				walk(sc, 0, def)
+				walk(sc, 0, def, ret)
 			}
 		}
-		walk(f.G.Blocks[0], 0, nil)
+		walk(f.G.Blocks[0], 0, nil, nil)
 		if found {
 			return
 		}
@@ -1821,4 +1842,142 @@ func (f *FuncCFG) LoopBound(l loopInfo) string {
 		}
 	}
 	return ""
+}
+
+// evalAt evaluates a condition at pt under a truth assignment of atoms. Atom keys are rendered by
+// KeyAt (helper parameters and receivers resolved to the caller's expressions); a boolean local
+// that is not assigned is followed through ValuesUnder (its value on the decided paths).
+func (f *FuncCFG) evalAt(e ast.Expr, pt Point, assign map[string]bool, depth int) (val, known bool) {
+	e = ast.Unparen(e)
+	if under, ok := astSubst[e]; ok {
+		return f.evalAt(under, pt, assign, depth)
+	}
+	switch x := e.(type) {
+	case *ast.UnaryExpr:
+		if x.Op == token.NOT {
+			v, k := f.evalAt(x.X, pt, assign, depth)
+			return !v, k
+		}
+	case *ast.BinaryExpr:
+		switch x.Op {
+		case token.LAND:
+			a, ka := f.evalAt(x.X, pt, assign, depth)
+			if ka && !a {
+				return false, true
+			}
+			b, kb := f.evalAt(x.Y, pt, assign, depth)
+			switch {
+			case kb && !b && ka:
+				return false, true
+			case ka && kb:
+				return a && b, true
+			}
+			return false, false
+		case token.LOR:
+			a, ka := f.evalAt(x.X, pt, assign, depth)
+			if ka && a {
+				return true, true
+			}
+			b, kb := f.evalAt(x.Y, pt, assign, depth)
+			switch {
+			case ka && kb:
+				return a || b, true
+			}
+			return false, false
+		}
+		if rel, ok := relOfWith(x, func(y ast.Expr) string { return f.KeyAt(y, pt) }); ok {
+			if v, has := assign[rel.String()]; has {
+				return v, true
+			}
+			if v, has := assign[negRel(rel).String()]; has {
+				return !v, true
+			}
+		}
+	}
+	if v, ok := assign[f.KeyAt(e, pt)]; ok {
+		return v, true
+	}
+	if id, ok := e.(*ast.Ident); ok && depth > 0 {
+		switch id.Name {
+		case "true":
+			return true, true
+		case "false":
+			return false, true
+		}
+		if bt, isB := f.Info.TypeOf(id).Underlying().(*types.Basic); isB && bt.Info()&types.IsBoolean != 0 {
+			vals := f.ValuesUnder(id, pt, assign)
+			if len(vals) == 1 {
+				switch vals[0] {
+				case "true":
+					return true, true
+				case "false":
+					return false, true
+				}
+			}
+		}
+	}
+	return false, false
+}
+
+// PathUnder: is there a path from the entry to a node matching target that avoids every node
+// matching avoid, when the branches decided by the assignment (evalAt) take only their decided
+// side? Short-circuit conditions are evaluated left to right: a decided left operand of && / ||
+// hides the right one (so `p == nil || *p` is not evaluated for *p when p is nil).
+func (f *FuncCFG) PathUnder(assign map[string]bool, avoid, target func(ast.Node) bool) ([]string, bool) {
+	type item struct {
+		b    *cfg.Block
+		path []string
+	}
+	seen := map[*cfg.Block]bool{}
+	var hit []string
+	var walk func(b *cfg.Block, path []string) bool
+	walk = func(b *cfg.Block, path []string) bool {
+		if seen[b] || !b.Live {
+			return false
+		}
+		seen[b] = true
+		if len(b.Nodes) > 0 {
+			path = append(append([]string{}, path...), f.P.posStr(b.Nodes[0].Pos()))
+		}
+		for _, n := range b.Nodes {
+			blocked, found := false, false
+			inspectNoLit(n, func(m ast.Node) bool {
+				if avoid != nil && avoid(m) {
+					blocked = true
+				}
+				if target(m) {
+					found = true
+				}
+				return true
+			})
+			if blocked {
+				return false
+			}
+			if found {
+				hit = path
+				return true
+			}
+		}
+		if c := condOf(b); c != nil && len(b.Succs) == 2 {
+			if tag, ok := caseTagOf[c]; ok {
+				c = &ast.BinaryExpr{X: tag, Op: token.EQL, Y: c}
+			}
+			if v, known := f.evalAt(c, Point{b, len(b.Nodes) - 1}, assign, 3); known {
+				if v {
+					return walk(b.Succs[0], path)
+				}
+				return walk(b.Succs[1], path)
+			}
+		}
+		for _, sc := range b.Succs {
+			if walk(sc, path) {
+				return true
+			}
+		}
+		return false
+	}
+	if walk(f.G.Blocks[0], nil) {
+		return hit, true
+	}
+	return nil, false
 }
